@@ -1,8 +1,9 @@
 SPECIFICATION Spec
-INVARIANT SequentialResults
+INVARIANT SequentialResults ResultsAreValues
 PROPERTY Pure
 CONSTANTS
   NProc = 3
   AllowWrite = FALSE
   AllowAlias = FALSE
+  AllowPool = FALSE
   MaxCalls = 2
